@@ -165,6 +165,14 @@ def _method(S, name, recv):
     return z3.Function("method:" + name, V, V)(S.v(recv))
 
 
+def _shutdown_hook(eng, args, kw, st, fr, k, node):
+    """executor.shutdown(wait=True)"""
+    eng.oblige("relay", "the executors are shut down WAITING for their workers (wait=True) - also when a failure is about to be "
+                        "re-raised: no worker thread is left running when the call returns", st,
+               eng.truth(kw["wait"]) if "wait" in kw else z3.BoolVal(False), node)
+    return k(PNONE, st)
+
+
 tmp_iter = REG.add(Contract(
     F, "ThreadedMailboxProcessor.iter",
     params=dict(self="V"),
@@ -180,7 +188,7 @@ tmp_iter = REG.add(Contract(
            "yf_failed": z3.BoolVal(False)},
     calls={"m.kill": _kill_hook, "m.cleanup": _cleanup_hook, "m.start": Abstract(sort=None), "self.log.debug": Abstract(sort=None),
            "self.log.fatal": Abstract(sort=None), "print": Abstract(sort=None), "sys.exc_info": Abstract(),
-           ".subscribe": Abstract(), ".shutdown": Abstract(sort=None)},
+           ".subscribe": Abstract(), ".shutdown": _shutdown_hook},
     store_hooks={"reason": lambda eng, st, key, v, node: ("raise", Exc("TypeError", origin="stmt"), st)},   # reason is a tuple
     loops={1: Loop(lambda S, a: []),
            2: Loop(lambda S, a: [], body_ensures=lambda S, a: [
